@@ -185,11 +185,10 @@ example : frameTable.length = 10 := by decide
 theorem cov_frame_alias_roundtrip :
     ∀ f ∈ ["QSW", "TNW"], aliasIn covAliasIn.1 covAliasIn.2 (aliasOut covAliasOut f) = f := by decide
 
-/-- maneuver frame tags — full statement: `∀ f ∈ ["QSW", "TNW"], aliasIn manAliasIn.1 manAliasIn.2 (aliasOut manAliasOut f) = f`.
-False of the current code for QSW (`Witness/C13.lean: opm_qsw_man_reloads_rsw`; the readers have no alias table,
-`manAliasIn = ([], "")`).  Proved part: TNW. -/
-theorem man_frame_alias_roundtrip_partial :
-    ∀ f ∈ ["TNW"], aliasIn manAliasIn.1 manAliasIn.2 (aliasOut manAliasOut f) = f := by decide
+/-- maneuver frame tags: QSW (written RSW) and TNW both come back.  (Until /repo b4d12f5 the readers had no alias
+table and only the TNW half held — then `man_frame_alias_roundtrip_partial`.) -/
+theorem man_frame_alias_roundtrip :
+    ∀ f ∈ ["QSW", "TNW"], aliasIn manAliasIn.1 manAliasIn.2 (aliasOut manAliasOut f) = f := by decide
 
 /-- every unit the writers attach is one `decode_unit` accepts -/
 theorem written_units_known :
@@ -284,15 +283,14 @@ theorem mans_xml_roundtrip (own : String) (ms : List Man) (hwf : ∀ m ∈ ms, M
   rw [mapM_asDict]
   exact mapM_loadMan own ms hwf
 
-/-- the frame tag survives exactly when the alias tables invert each other on it: own frame (`None`) and TNW
-do, for every orbit frame that is not itself an alias source; QSW does not (see `Witness/C13.lean`) -/
+/-- the frame tag of a maneuver survives — own frame (`None`), QSW and TNW — for each of the ten orbit frames -/
 theorem manFrameBack_ok (own : String) (m : Man) (hown : own ∈ frameTable.map (·.1))
-    (hf : m.frame = none ∨ m.frame = some "TNW") : manFrameBack own m = m.frame := by
+    (hf : m.frame = none ∨ m.frame = some "QSW" ∨ m.frame = some "TNW") : manFrameBack own m = m.frame := by
   have hmem : own ∈ ["EME2000", "MOD", "TOD", "TEME", "PEF", "ITRF", "TIRF", "CIRF", "GCRF", "G50"] := by
     have : frameTable.map (·.1) = ["EME2000", "MOD", "TOD", "TEME", "PEF", "ITRF", "TIRF", "CIRF", "GCRF", "G50"] := by decide
     rw [this] at hown; exact hown
   simp only [List.mem_cons, List.not_mem_nil, or_false] at hmem
-  rcases hf with hf | hf <;> rcases hmem with h | h | h | h | h | h | h | h | h | h <;> subst h <;>
+  rcases hf with hf | hf | hf <;> rcases hmem with h | h | h | h | h | h | h | h | h | h <;> subst h <;>
     simp [manFrameBack, manFrameOut, hf, aliasIn, aliasOut, manAliasIn, manAliasOut, List.lookup] <;> decide
 
 example : ManWf "EME2000" ⟨0, .s "t", some "TNW", some "burn", [.s "1", .s "2", .s "3"]⟩ := by
